@@ -451,7 +451,7 @@ func genConstructive(t *rapid.T) Case {
 	rot := float64(float32(genRot(t)))
 	phi := 2 * math.Pi * rot
 	th1 := rapid.Float64Range(0, 2*math.Pi).Draw(t, "theta1")
-	family := rapid.SampledFrom([]string{"fits", "fits", "fits", "undersized", "exact-fit", "near-full", "shallow"}).Draw(t, "family")
+	family := rapid.SampledFrom([]string{"fits", "fits", "fits", "undersized", "exact-fit", "near-full", "shallow", "barely-undersized"}).Draw(t, "family")
 	if family == "exact-fit" {
 		// radii that span the chord exactly (a half turn; what a circle drawn as
 		// two arcs uses): values on a coarse grid so that the fit is exact or
@@ -478,6 +478,11 @@ func genConstructive(t *rapid.T) Case {
 		}
 	} else if family == "exact-fit" {
 		delta = math.Pi
+	} else if family == "barely-undersized" {
+		// radii a hair too small to span the end points (0.1% down to a few float32 steps): SVG
+		// scales them up all the same, and the arc still ends on the end point
+		delta = math.Pi
+		k = 1 - math.Pow(10, -rapid.Float64Range(3.05, 6.5).Draw(t, "hair"))
 	} else if family == "shallow" {
 		// a very flat arc: a radius hundreds to thousands of times the chord
 		delta = math.Pow(10, -rapid.Float64Range(1.5, 4).Draw(t, "flat"))
@@ -511,7 +516,7 @@ func genConstructive(t *rapid.T) Case {
 	c.Rot = ops.F32(float32(rot))
 	c.PixelCircle = pixelCircle && rx != ry
 	c.LargeArc = math.Abs(delta) > math.Pi
-	if family == "undersized" || family == "exact-fit" {
+	if family == "undersized" || family == "exact-fit" || family == "barely-undersized" {
 		c.LargeArc = rapid.Bool().Draw(t, "la") // irrelevant for a half ellipse
 	}
 	c.Sweep = delta > 0
@@ -609,7 +614,7 @@ func classify(c Case) (bool, []string) {
 	if c.Want != nil {
 		labels = append(labels, "constructive-expectation")
 	}
-	nt := rotated && nonCircular && (nonUniform || offOrigin) || c.Family == "undersized" || c.Family == "exact-fit" || c.Family == "near-full" || c.Family == "shallow" || c.Family == "direct-scale-up" || c.Family == "zero-radius"
+	nt := rotated && nonCircular && (nonUniform || offOrigin) || c.Family == "undersized" || c.Family == "exact-fit" || c.Family == "barely-undersized" || c.Family == "near-full" || c.Family == "shallow" || c.Family == "direct-scale-up" || c.Family == "zero-radius"
 	return nt, labels
 }
 
